@@ -12,6 +12,7 @@ import (
 	"path/filepath"
 	"sort"
 	"strings"
+	gosync "sync"
 	"time"
 
 	"github.com/buchgr/bazel-remote/v2/cache"
@@ -351,10 +352,22 @@ func VfShutdown(cc Cache) {
 		vsched.CancelStop()
 	}
 	if c.containsQueue != nil {
-		close(c.containsQueue)
-		c.containsQueue = nil
+		vfClosedMu.Lock()
+		if !vfClosed[c] {
+			vfClosed[c] = true
+			close(c.containsQueue)
+		}
+		if len(vfClosed) > 4096 {
+			vfClosed = map[*diskCache]bool{c: true}
+		}
+		vfClosedMu.Unlock()
 	}
 }
+
+var (
+	vfClosedMu gosync.Mutex
+	vfClosed   = map[*diskCache]bool{}
+)
 
 // VfForget evicts key (harness-driven eviction, as if by space pressure).
 func VfForget(cc Cache, key string) {
